@@ -130,6 +130,26 @@ CONFIGS = {
 }
 
 
+PROJECTS = {
+    # a dual-use library that needs another one: both halves and the dependencies of both halves are installed
+    'dual-use': ("""
+bar = library('bar', files=['bar.c'])
+foo = library('foo', files=['foo.c'], libs=[bar])
+install(foo)
+""", {'bar.c': 'int bar(void) { return 1; }\n', 'foo.c': 'int bar(void); int foo(void) { return bar(); }\n'},
+                 ['--enable-shared', '--enable-static'], {}, ['libfoo.so', 'libfoo.a', 'libbar.so', 'libbar.a'], []),
+    # only the program is installed; its library and that library's prebuilt dependency come along, and every
+    # installed binary has installed search paths
+    'implicit-chain': ("""
+pre = shared_library('prebuilt/libpre.so')
+a = shared_library('sub/a', files=['a.c'], libs=[pre])
+exe = executable('prog', files=['main.c'], libs=[a])
+install(exe)
+""", {'a.c': 'int h(void); int a_fn(void) { return h(); }\n', 'main.c': 'int a_fn(void); int main(void) { return a_fn(); }\n'},
+                       [], {'prebuilt/libpre.so': 'int h(void) { return 0; }\n'}, ['liba.so', 'libpre.so'], ['prog']),
+}
+
+
 def _w(p, text):
     _os.makedirs(_os.path.dirname(p), exist_ok=True)
     with open(p, 'w') as f:
@@ -151,10 +171,77 @@ class InstallRun(Bounded):
     def native_inputs(self, case, alphabet, maxlen, rng, extra=0):
         for k in CONFIGS:
             yield {'config': k}
+        for k in PROJECTS:
+            yield {'project': k}
+
+    def check_project(self, case, raw):
+        """Small projects with their own expected file set: name -> (build.bfg, sources, configure options, prebuilt
+        libraries, expected installed base names under libdir / bindir)."""
+        import shutil, subprocess, tempfile
+        from pyvc.interp import REPO
+        body, sources, opts, prebuilt, want_lib, want_bin = PROJECTS[raw['project']]
+        top = tempfile.mkdtemp(prefix='pyvc_inst_')
+        try:
+            src, b, prefix = top + '/src', top + '/b', top + '/pre'
+            _w(src + '/build.bfg', "project('p')\n" + body)
+            for k, v in sources.items():
+                _w(src + '/' + k, v)
+            env = dict(_os.environ, PATH=top + '/bin:/venv/bin:' + _os.environ['PATH'])
+            for k in ('MAKEFLAGS', 'DESTDIR', 'LD_LIBRARY_PATH'):
+                env.pop(k, None)
+
+            def run(cmd, **kw):
+                return subprocess.run(cmd, env=env, capture_output=True, text=True, timeout=300, **kw)
+            for lib, csrc in prebuilt.items():
+                _w(src + '/' + lib + '.c', csrc)
+                if run(['cc', '-shared', '-fPIC', '-o', src + '/' + lib, src + '/' + lib + '.c']).returncode != 0:
+                    return None
+            for name, mod in (('bfg9000', 'bfg9000.driver'), ('bfg9000-depfixer', 'bfg9000.depfixer')):
+                lp = top + '/bin/' + name
+                _w(lp, "#!/bin/sh\nPYTHONPATH=%s exec /venv/bin/python -c 'import sys; sys.argv[0] = \"%s\"; "
+                       "from %s import main; sys.exit(main())' \"$@\"\n" % (REPO, lp, mod))
+                _os.chmod(lp, 0o755)
+            r = run([top + '/bin/bfg9000', 'configure-into', src, b, '--backend=make', '--no-resolve-packages',
+                     '--prefix=' + prefix] + opts)
+            if r.returncode != 0:
+                return self.fail(case, raw, 'configure_succeeds', stderr=r.stderr[-500:])
+            r = run(['make', '-C', b, 'install'])
+            if r.returncode != 0:
+                return self.fail(case, raw, 'install_succeeds', output=(r.stdout + r.stderr)[-700:])
+            found = {}
+            for dp, dn, fn in _os.walk(prefix):
+                for f in fn:
+                    found[_os.path.join(dp, f)] = f
+            libs = sorted(f for p_, f in found.items() if p_.startswith(prefix + '/lib/'))
+            bins = sorted(f for p_, f in found.items() if p_.startswith(prefix + '/bin/'))
+            if libs != sorted(want_lib) or bins != sorted(want_bin) or len(found) != len(want_lib) + len(want_bin):
+                return self.fail(case, raw, 'exactly_the_declared_files_and_their_dependencies', libdir=libs, bindir=bins,
+                                 expected_lib=sorted(want_lib), expected_bin=sorted(want_bin), all=sorted(found))
+            libdirs = {_os.path.dirname(p_) for p_ in found if p_.startswith(prefix + '/lib/')}
+            for p_ in found:
+                if p_.endswith('.a'):
+                    continue
+                rp = run(['patchelf', '--print-rpath', p_])
+                entries = [e for e in rp.stdout.strip().split(':') if e]
+                if rp.returncode == 0 and any(e not in libdirs for e in entries):
+                    return self.fail(case, raw, 'installed_search_paths_name_the_installed_library_directories',
+                                     file=p_[len(prefix):], rpath=rp.stdout.strip(), allowed=sorted(libdirs))
+            shutil.rmtree(b)
+            for lib in prebuilt:
+                _os.remove(src + '/' + lib)
+            for f in want_bin:
+                pr = run([prefix + '/bin/' + f], cwd='/')
+                if pr.returncode != 0:
+                    return self.fail(case, raw, 'installed_program_runs', exit=pr.returncode, stderr=pr.stderr[-300:])
+            return True
+        finally:
+            shutil.rmtree(top, ignore_errors=True)
 
     def native_check(self, case, raw):
         import shutil, subprocess, tempfile
         from pyvc.interp import REPO
+        if 'project' in raw:
+            return self.check_project(case, raw)
         opts, destdir, prebuilt = CONFIGS[raw['config']]
         top = tempfile.mkdtemp(prefix='pyvc_inst_')
         try:
